@@ -511,7 +511,9 @@ end GrepRowLayout
 
 `GrepInput.lineOfInput` (DeltaModel/GrepInput.lean) is the parse dispatch of `handle_grep_line`: the coloured
 regex on a raw line beginning with ESC (code then through `strip_ansi_codes`), otherwise the line without escape
-sequences goes to the JSON reader when it begins with `{` and to the plain regexes in order when not.
+sequences goes to the JSON reader when it begins with `{` and to the plain regexes in order when not — or, with
+the repair notes/fix-grep-brace-path.diff in the source (regenerated flag `jsonFailureFallsBackToRegexes`), also when
+the JSON reader answers `None`.
 `strip` (= `ansi::strip_ansi_codes`) is a parameter: the theorem holds for every function that leaves ESC-free
 text alone; the JSON text parser stays trusted (a JSON line comes as its value). -/
 
@@ -520,8 +522,10 @@ open GrepRow GrepInput
 
 /-- **`grep_line_rendered_faithfully`, classic output style.** For every stream of source lines, each of them
 * a line in the coloured format `fmtColoured p` under the hypotheses of `coloured_round_trip`, or
-* a plain line `fmtPlain p` of one of the four fragments of `plain_round_trip_partial_*`, without ESC and not
-  beginning with `{` (such a line is handed to the JSON reader: `brace_path_not_read` below), or
+* a plain line `fmtPlain p` of one of the four fragments of `plain_round_trip_partial_*`, without ESC and — only
+  while `parse_grep_line` hands `{` lines to the JSON reader alone (regenerated flag
+  `Generated.Grep.jsonFailureFallsBackToRegexes = false`; `brace_path_not_read` / `brace_path_read_after_fallback`
+  below) — not beginning with `{`, or
 * an `rg --json` line whose value `parse_line` answers with a match / context / header line (which values those
   are: `record_with_extra_members_accepted`, `metadata_records_swallowed`),
 
@@ -565,14 +569,43 @@ example : ∀ s, s ∈ exSrcs → s.Admissible := by
   · exact ⟨{ gtype := .ripgrep, kind := .match_, path := "src/a.rs".toList, num := some 3,
              code := "let x = 1;".toList, subs := some [(0, 3)] }, by decide, by decide⟩
 
-/-- Why "not beginning with `{`" is a hypothesis: `{a}.rs:1:x` is a line of fragment A, but `parse_grep_line`
-hands every line beginning with `{` to the JSON reader only — it is not read as grep output and goes through
-unchanged (directories of project templates are named like that: `{{cookiecutter.project_slug}}/setup.py`). -/
-theorem brace_path_not_read :
-    fragNumbered { path := "{a}.rs".toList, kind := .match_, digits := some "1".toList, code := "x".toList } = true ∧
-    (match lineOfInput 4 id (.text "{a}.rs:1:x".toList) with
-     | .other raw => raw == utf8 "{a}.rs:1:x"
-     | .hit _ => false) = true := by decide
+/-- Why "not beginning with `{`" is a hypothesis while `parse_grep_line` hands every line beginning with `{` to the
+JSON reader ONLY (`Generated.Grep.jsonFailureFallsBackToRegexes = false`, regenerated from the source):
+`{{cookiecutter.slug}}/a.py:1:x` is a line of fragment A (directories of project templates are named like that),
+but it is not read as grep output and goes through unchanged. A defect of delta (known finding
+`C16-plain-path-begins-with-brace`, repair: notes/fix-grep-brace-path.diff). -/
+theorem brace_path_not_read (hsrc : Generated.Grep.jsonFailureFallsBackToRegexes = false) :
+    fragNumbered { path := "{{cookiecutter.slug}}/a.py".toList, kind := .match_, digits := some "1".toList,
+                   code := "x".toList } = true ∧
+    (match lineOfInput 4 id (.text "{{cookiecutter.slug}}/a.py:1:x".toList) with
+     | .other raw => raw == utf8 "{{cookiecutter.slug}}/a.py:1:x"
+     | .hit _ => false) = true := by
+  simp only [lineOfInput, hsrc]
+  decide
+
+/-- With the repair in the source (`jsonFailureFallsBackToRegexes = true`: the regexes are tried when the JSON reader
+answers `None`) the same line is read as the hit it is: path `{{cookiecutter.slug}}/a.py`, line number 1, code `x` —
+and `grep_line_rendered_faithfully` then covers plain lines whose path begins with `{` (`Src.Admissible` asks
+"not beginning with `{`" only while the flag is `false`). -/
+theorem brace_path_read_after_fallback (hsrc : Generated.Grep.jsonFailureFallsBackToRegexes = true) :
+    (match lineOfInput 4 id (.text "{{cookiecutter.slug}}/a.py:1:x".toList) with
+     | .hit h => h.kind == .match_ && h.path == "{{cookiecutter.slug}}/a.py".toList && h.num == some 1 &&
+                 h.code == utf8 "x" && h.gtype == .classic
+     | .other _ => false) = true := by
+  simp only [lineOfInput, hsrc]
+  decide
+
+/-- Both shapes of the dispatch are the same function but for `{` lines the JSON reader rejects: an `{arch}/…` context
+line under either. -/
+example :
+    (match lineOfInputWith false 4 id (.text "{arch}/lib/foo.c-12-ctx".toList) with | .other _ => true | .hit _ => false) = true ∧
+    (match lineOfInputWith true 4 id (.text "{arch}/lib/foo.c-12-ctx".toList) with
+     | .hit h => h.kind == .context && h.path == "{arch}/lib/foo.c".toList && h.num == some 12 && h.code == utf8 "ctx"
+     | .other _ => false) = true ∧
+    (∀ fb : Bool, (match lineOfInputWith fb 4 id (.text "src/a.rs:3:x".toList) with
+       | .hit h => h.kind == .match_ && h.path == "src/a.rs".toList && h.num == some 3 && h.code == utf8 "x"
+       | .other _ => false) = true) := by
+  decide
 
 end FromInputText
 
